@@ -535,7 +535,7 @@ MsgSetKeys(s, a) ==
 \* ---------------------------------------------------------------- the step function
 \* Step(s, a) = [out, s, id].  For "End" the caller has already put the staking module's end-of-block
 \* validator powers into s.stk / s.tot (the staking EndBlocker runs before the bridge's).
-Step(s, a) ==
+Step1(s, a) ==
     CASE a.k = "Begin"    -> [out |-> "ok", s |-> BeginBlock(s, a.dt), id |-> 0]
       [] a.k = "End"      -> LET r == EndBlockHub(s) IN [out |-> IF r.panic THEN "panic" ELSE "ok", s |-> r.s, id |-> 0]
       [] a.k = "Send"     -> MsgSend(s, a)
@@ -547,5 +547,15 @@ Step(s, a) ==
       [] a.k = "Confirm"  -> MsgConfirm(s, a)
       [] a.k = "SetKeys"  -> MsgSetKeys(s, a)
       [] OTHER            -> Ok(s)
+
+\* a transaction with several messages ("Tx", a.msgs): the messages run in order; if one fails, none takes effect
+StepTx(s, msgs) ==
+    LET F[k \in 0..Len(msgs)] == IF k = 0 THEN Ok(s) ELSE IF F[k - 1].out # "ok" THEN F[k - 1] ELSE Step1(F[k - 1].s, msgs[k])
+        r == F[Len(msgs)]
+    IN IF r.out = "ok" THEN r ELSE Err(s)
+\* the states before each message of an accepted multi-message transaction (for the history variables)
+TxStates(s, msgs) == LET F[k \in 0..Len(msgs)] == IF k = 0 THEN s ELSE Step1(F[k - 1], msgs[k]).s IN F
+
+Step(s, a) == IF a.k = "Tx" THEN StepTx(s, a.msgs) ELSE Step1(s, a)
 
 =============================================================================
